@@ -484,7 +484,7 @@ def _theories():
         THEORIES[name] = dict(name=name, make=make, lit=lit, coord=coord, scs=scs, dets=dets, tol=tol, scat=scat,
                               shape=list(shape))
     reg("Mie", lambda w=(lambda c: c): w(Mie)(), "Mie", "spherical", ["sphere", "layered"], ["grid", "points", "sph"], TOL)
-    reg("MieSuperposition", lambda w=(lambda c: c): w(Mie)(), "Mie", "spherical", ["mixed-cluster"], ["grid", "points"], TOL,
+    reg("MieSuperposition", lambda w=(lambda c: c): w(Mie)(), "Mie", "spherical", ["mixed-cluster"], ["grid", "points", "sph"], TOL,
         scat=False)
     reg("Multisphere", lambda w=(lambda c: c): w(Multisphere)(), "Multi", "spherical", ["cluster", "usphere"],
         ["grid", "points", "sph"], LOOSE)
@@ -1017,6 +1017,50 @@ def stage_explore(ctx):
             bo = explore_one(ctx, "Multisphere", "cross", base, s, subst, bo)
 
 
+def stage_integer_units(ctx):
+    """the same configuration written in a unit in which every length is a whole number (nanometres, angstroms) and handed over
+    as python ints - the usual way to write such numbers - against the micron description in floats.  The configurations are
+    first rounded to whole numbers of 1e-4 micron, so the two descriptions denote the same lengths up to a rounding of 1e-16."""
+    import numpy as np
+    rng = ctx.subrng("integer-units")
+    plan = [("Mie", "sphere"), ("Mie", "layered"), ("MieSuperposition", "mixed-cluster"), ("Multisphere", "cluster"),
+            ("Tmatrix", "spheroid"), ("Tmatrix", "cylinder")] * ctx.n(1, 4)
+    ths = _theories()
+    for name, kind in plan:
+        th = ths[name]
+        base = gen_cfg(rng, gen_sc(rng, kind), rng.choice(["grid", "points"]))
+        if name == "Tmatrix":
+            base["pol"] = [1, 0]
+        base["lam"] = round(base["lam"] * 1e4) / 1e4
+        unit = rng.choice([1e4, 1e5])                 # 1e-4 micron = 1 angstrom; 1e-5 micron
+        whole = transform(base, s=unit)
+        toint = lambda v: int(round(v))  # noqa
+        whole["sc"] = map_sc(whole["sc"], toint, lambda n: n)
+        whole["det"] = map_det(whole["det"], toint)
+        whole["lam"] = toint(whole["lam"])
+        back = transform(whole, s=1.0 / unit)          # the float description of exactly these whole numbers
+        data = dict(kind="integer-units", theory=name, base=back, whole=whole, unit=unit)
+        for api in ("holo", "field"):
+            ctx.explored += 1
+            ctx.count("integer-units:%s:%s" % (name, api))
+            ref = run_api(api, th["make"](), back)
+            try:
+                out = run_api(api, th["make"](), whole)
+            except Exception as e:  # noqa
+                ctx.violation("explore:%s:integer-lengths:raises" % name,
+                              "%s of %s computes when the lengths are written as floats in microns but raises %s: %s when the same "
+                              "lengths are written as whole numbers (python ints) of 1/%g micron" % (api, name, type(e).__name__, str(e)[:120], unit),
+                              data)
+                break
+            if not close_vec(out, ref, th["tol"]):
+                err = float(np.max(np.abs(out - ref)) / max(np.max(np.abs(ref)), 1e-300)) if out.shape == ref.shape else None
+                ctx.violation("explore:%s:integer-lengths" % name,
+                              "%s of %s differs between lengths written as floats in microns and as whole numbers (python ints) of 1/%g "
+                              "micron: relative difference %r" % (api, name, unit, err), dict(data, rel_err=err))
+                break
+            ctx.nontriv(("integer-units", name, kind, api))
+
+
 def stage_sequence(ctx):
     """History x units: ONE theory object per theory computes a short series of particles that share index, medium and
     wavelength but differ in size and position, first in microns, then re-expressed in metres (x 1e-6), millimetres,
@@ -1202,6 +1246,7 @@ def run(ctx):
     guarded(ctx, "params", stage_params, ctx)
     guarded(ctx, "cross", stage_cross, ctx)
     guarded(ctx, "explore", stage_explore, ctx)
+    guarded(ctx, "integer-units", stage_integer_units, ctx)
     guarded(ctx, "sequence", stage_sequence, ctx)
     guarded(ctx, "two_colour", stage_two_colour, ctx)
     ctx.notes.append("largest relative difference observed in the exploration (tolerance 1e-9; 1e-6 for Multisphere / T-matrix): "
